@@ -14,8 +14,8 @@ Request = blank separated tokens; the nesting tree comes last:
   `stmtBytes id`, `C:<name>` … `]`, `R:<n>`, `I:<k>:<args>`, `S:<hex>`, `W:<n>`, `U:<file hex>`)
 
 Answer: `key=value` fields.  `spec_*`: the documented reading of the real file joined with the structurally computed
-positions (`LineInfo.judge`), failing records classified: `known` = the tree has a continuation line inside a block body
-and the record is what the model (= the C code) computes, `bad` = anything else.  `corr_*`: model order/values = real.
+positions (`LineInfo.judge`); every failing record is a failure (`spec_<file>=fail:<indices>`, with the first failing record,
+what the file says and what is admissible).  `corr_*`: model order/values = real.
 -/
 namespace Driver.C19L
 open AslModel.LineInfo AslModel.Listing
@@ -107,34 +107,24 @@ def showEntry (e : Entry) : String := s!"{Driver.C20.hexStr e.file}:{e.line}:{e.
 def showWant (x : Nat × Exec) : String :=
   s!"{Driver.C20.hexStr x.2.file}:{",".intercalate (x.2.adm.map fun r => s!"{r.1}-{r.2}")}:{x.1}:id{x.2.id}"
 
-/-- all records against the expected statements: (indices that fail and are what the model computes, other failing
-indices); a length mismatch is reported as a failure at the first surplus index -/
-def classify (real : List Entry) (want : List (Nat × Exec)) (model : List (String × Nat × Nat)) : List Nat × List Nat := Id.run do
-  let mut known : List Nat := []
+/-- all records against the expected statements: indices that fail; a length mismatch is reported as a failure at the
+first surplus index -/
+def failing (real : List Entry) (want : List (Nat × Exec)) : List Nat := Id.run do
   let mut bad : List Nat := []
   let ra := real.toArray
   let wa := want.toArray
-  let ma := model.toArray
   for i in [0:max ra.size wa.size] do
     match ra[i]?, wa[i]? with
-    | some r, some x =>
-      if !okEntry r x then
-        match ma[i]? with
-        | some m => if m.1 == r.file && m.2.1 == r.line && m.2.2 == r.addr then known := known ++ [i] else bad := bad ++ [i]
-        | none => bad := bad ++ [i]
+    | some r, some x => if !okEntry r x then bad := bad ++ [i]
     | _, _ => bad := bad ++ [i]
-  return (known, bad)
+  return bad
 
-def verdict (tag : String) (wf : Bool) (real : List Entry) (want : List (Nat × Exec)) (model : List (String × Nat × Nat)) : String :=
-  let (known0, bad0) := classify real want model
-  -- records that the model reproduces are a consequence of continuation lines inside block bodies only if there are any
-  let known := if wf then [] else known0
-  let bad := if wf then (known0 ++ bad0) else bad0
-  let first := (bad ++ known).head?
-  let det := match first with
+def verdict (tag : String) (real : List Entry) (want : List (Nat × Exec)) : String :=
+  let bad := failing real want
+  let det := match bad.head? with
     | some i => s!" {tag}_at={i} {tag}_real={match real[i]? with | some r => showEntry r | none => "-"} {tag}_want={match want[i]? with | some x => showWant x | none => "-"}"
     | none => ""
-  s!"spec_{tag}={if bad.isEmpty then "ok" else "fail:" ++ ",".intercalate ((bad.take 8).map toString)} known_{tag}={known.length} n_{tag}={real.length}" ++ det
+  s!"spec_{tag}={if bad.isEmpty then "ok" else "fail:" ++ ",".intercalate ((bad.take 8).map toString)} n_{tag}={real.length}" ++ det
 
 def handle (line : String) : String := Id.run do
   let q := parseReq line
@@ -152,7 +142,6 @@ def handle (line : String) : String := Id.run do
       -- the code file holds every statement's marker bytes at the address the layout gives
       let codeBad := (want.filter (fun x => !Driver.C19.holds cm 1 x.1 (stmtBytes x.2.id))).length
       let codeOk := codeBad == 0 && total == wantBytes
-      let wf := bodyWf body
       -- MODEL
       let evs := run q.main body
       let fs := fileList q.main evs
@@ -162,27 +151,25 @@ def handle (line : String) : String := Id.run do
       let mf := parseMap q.map.toList
       let realMap := (mf.lines.filter (fun ml => ml.seg == "CODE".toList)).map (fun ml => (⟨String.ofList ml.file, ml.line, ml.addr⟩ : Entry))
       let otherSeg := (mf.lines.filter (fun ml => ml.seg != "CODE".toList)).length
-      let vMap := verdict "map" wf (sortByAddr realMap) want mrecs
+      let vMap := verdict "map" (sortByAddr realMap) want
       let corrMap := (realMap.map fun e => (e.file, e.line, e.addr)) == mapOrder fs li
       -- NoICE
       let noiS :=
-        if !q.hasNoi then "spec_noi=- known_noi=0 n_noi=0 corr_noi=-"
+        if !q.hasNoi then "spec_noi=- n_noi=0 corr_noi=-"
         else match parseNoice q.noi.toList with
-          | none => "spec_noi=fail:parse known_noi=0 n_noi=0 corr_noi=-"
+          | none => "spec_noi=fail:parse n_noi=0 corr_noi=-"
           | some es =>
-            verdict "noi" wf (sortByAddr es) want mrecs ++
+            verdict "noi" (sortByAddr es) want ++
               s!" corr_noi={if (es.map fun e => (e.file, e.line, e.addr)) == noiceOrder fs li then "ok" else "ne"}"
       -- Atmel object file: one record per address unit; the file index is an opaque key that must stand for one file
       let atmS :=
         match q.atmel with
-        | none => "spec_atm=- known_atm=0 n_atm=0"
+        | none => "spec_atm=- n_atm=0"
         | some bytes =>
           match parseAtmel bytes with
-          | none => "spec_atm=fail:parse known_atm=0 n_atm=0"
+          | none => "spec_atm=fail:parse n_atm=0"
           | some (arecs, names) =>
             let wantU := want.flatMap unitsOf
-            let modelU : List (String × Nat × Nat) := (mrecs.zip want).flatMap
-              fun (mx : (String × Nat × Nat) × (Nat × Exec)) => (unitsOf mx.2).map fun (u : Nat × Exec) => (mx.1.1, mx.1.2.1, u.1)
             let sorted := (sortByAddr (arecs.map fun (r : AtmelRec) => (⟨toString r.file, r.line, r.addr⟩ : Entry)))
             -- index -> file by first occurrence
             let table : List (String × String) := (sorted.zip wantU).foldl
@@ -194,7 +181,7 @@ def handle (line : String) : String := Id.run do
               match kv.1.toNat? with
               | some i => if i < names.length then names.getD i "" == String.ofList (Driver.C19.baseName kv.2.toList) else true
               | none => false
-            verdict "atm" wf resolved wantU modelU ++ s!" atm_files={if inj && namesOk then "ok" else "fail"}"
+            verdict "atm" resolved wantU ++ s!" atm_files={if inj && namesOk then "ok" else "fail"}"
       -- listing: the code-bearing line groups in order are the executed statements in order
       let lstS :=
         if q.lst.isEmpty then "spec_lst=- n_lst=0"
@@ -210,15 +197,8 @@ def handle (line : String) : String := Id.run do
                                   (match g.first.line with | some l => inRanges l x.2.adm | none => false))
               | none => true
             | _, _ => true
-          let mr := mrecs.toArray
-          -- a failing group whose line is the model's line is the listing face of the continuation-line finding
-          let isKnown (k : Nat) : Bool := !wf && (match code[k]?, mr[k]?, wa[k]? with
-            | some g, some m, some x => g.first.line == some m.2.1 && g.first.depth == x.2.depth &&
-                (match parseListing 16 g.lines with | some (a, bs) => a == x.1 && bs == stmtBytes x.2.id | none => false)
-            | _, _, _ => false)
-          let hard := bad.filter (fun k => !isKnown k)
-          s!"spec_lst={if hard.isEmpty then "ok" else "fail:" ++ ",".intercalate ((hard.take 8).map toString)} known_lst={(bad.filter isKnown).length} n_lst={code.size}"
-      return s!"pfile=ok execs={want.length} bytes={total} code={if codeOk then "ok" else "fail"} wf={if wf then 1 else 0} files={fs.length} map_bad_lines={mf.bad} map_other_seg={otherSeg} {vMap} corr_map={if corrMap then "ok" else "ne"} {noiS} {atmS} {lstS}"
+          s!"spec_lst={if bad.isEmpty then "ok" else "fail:" ++ ",".intercalate ((bad.take 8).map toString)} n_lst={code.size}"
+      return s!"pfile=ok execs={want.length} bytes={total} code={if codeOk then "ok" else "fail"} files={fs.length} map_bad_lines={mf.bad} map_other_seg={otherSeg} {vMap} corr_map={if corrMap then "ok" else "ne"} {noiS} {atmS} {lstS}"
   | _ => return "bad-request tree"
 
 end Driver.C19L
